@@ -8,10 +8,70 @@ def select(scen, rng, quick):
     return _solve.stratified(pool, key, 140 if quick else 1500, rng)
 
 
+VL_CFG = """CONSTANTS MaxLen = %d
+MaxVal = 3
+MaxPatience = %d
+EmitScenarios = %s
+SPECIFICATION Spec
+INVARIANT ImprovementIffStrictMinimum
+INVARIANT StopIffPatienceExhausted
+INVARIANT NeverStopsWhenDisabled
+INVARIANT BestIsMinimum
+INVARIANT OneDrawPerInvocation
+INVARIANT Emit
+"""
+VL_TRACE = """SPECIFICATION Spec
+INVARIANT Report
+INVARIANT Done
+POSTCONDITION Summary
+CHECK_DEADLOCK FALSE
+"""
+
+
+def direct_validation_leg(tier, seed):
+    """ValidationLoss as a state machine: Validation.tla model-checked, every maximal value script emitted and replayed by
+    calling the real module directly (outside solve); returns (violations, stats)"""
+    import random
+
+    from .. import core, tracecheck
+
+    q = tier == "quick"
+    sc = core.Scratch("C19vl")
+    try:
+        r_mc = core.run_tlc("Validation", VL_CFG % (6 if q else 7, 3, "FALSE"), sc, workers=core.NCPU, tag="MC_Validation")
+        core.tlc_must_pass(r_mc, "MC_Validation")
+        r_em = core.run_tlc("Validation", VL_CFG % (4 if q else 6, 2 if q else 3, "TRUE"), sc, workers=1, tag="Emit_Validation")
+        core.tlc_must_pass(r_em, "Emit_Validation")
+        scripts = [p for p in r_em.prints if isinstance(p, dict) and p.get("kind") == "vl_script"]
+        rng = random.Random(seed)
+        for k, s in enumerate(scripts):
+            s.update(seed=seed + k % 7, bv=[2, 4, 1][k % 3], vobs=bool(k % 2), vpar=bool((k // 2) % 2))
+        if q and len(scripts) > 250:
+            rng.shuffle(scripts)
+            scripts = scripts[:250]
+        out = core.run_drivers("harness.drv_validation:run_case", scripts, x64=True)
+        crashed = [t for t in out if "tb" in t]
+        if crashed:
+            raise core.MachineryError("driver crashed: " + crashed[0]["tb"])
+        slim = [{k: v for k, v in t.items() if k != "sc"} for t in out]
+        rej, acc, res = tracecheck.validate("Trace_Validation", VL_TRACE, slim, sc, "trC19vl")
+        viol = []
+        for x in rej:
+            t = out[x["tid"]]
+            viol.append(dict(clause=x["clause"], sig=dict(leg="direct", patience=t["patience"], earlyOn=t["earlyOn"], vobs=bool(t["sc"].get("vobs")),
+                                                          vpar=bool(t["sc"].get("vpar")), bv=t["sc"].get("bv")),
+                             detail=f"event {x['ev']}", driver="harness.drv_validation:run_case", cfg=t["sc"], record=t))
+        stats = dict(validation_model_states=r_mc.distinct, validation_scripts_emitted=len(scripts), validation_scripts_replayed=len(out),
+                     validation_scripts_accepted=acc, validation_calls=sum(len(t["ev"]) for t in out))
+        return viol, stats
+    finally:
+        sc.cleanup()
+
+
 def run(tier, seed):
     return _solve.run(
         "C19", tier, seed, select=select, extra_cases=lambda rng, q: [],
-        needs=["scripted", "builtin", "stopped_early"],
+        needs=["scripted", "builtin", "stopped_early"], extra_leg=direct_validation_leg,
         rule="MC: Solve.tla all validation outcome scripts (user module: improve/stop per call; ValidationLoss: loss values, patience, "
              "early-stopping on/off), periods, iteration counts, faults; every terminal state is emitted as a scenario and a stratified "
              "selection (vkind x period x patience x early x stopped? x n x fault?) is replayed into jinns.solve with a scripted "
